@@ -29,7 +29,12 @@ RULE = ('(a) every floor shape of a 2x3 column grid with 2 layers (3^6 = 729 wet
         'variable (before / after the data variables), gaps inside the water column, integer variables; '
         '(c) extended stream, model against code only: bounds held as coordinates, time-varying floor, variables '
         'of one group with different floors, two depth dimensions on one variable, one-level axes, no time '
-        'coordinate, unknown names. Real calls go through Convention.ocean_floor() and through '
+        'coordinate, unknown names; (d) the column routine by itself (skipped, counted, when the private helper '
+        'changes its interface); (e) placement of the vertical grid against the datum: a minimal 2x2 dataset with '
+        'the axis crossing / wholly above / touching the datum x both signs x both layer orders, and plain xarray '
+        'datasets holding every column of valid / missing layers (gaps included) of length 2..5 (6 thorough) x '
+        '{all layers below the datum, top layer at it, axis crossing it, all layers above it} x {positive up, down} '
+        'x {deep-to-shallow, shallow-to-deep} x {positive attribute, sign guessed}, oracle and model. Real calls go through Convention.ocean_floor() and through '
         'operations.depth.ocean_floor; the model line carries the whole dataset and the order in which the code '
         'visits the depth dimensions (sorted by hash). Non-trivial = at least one column is neither full nor '
         'empty or the axis is not already positive-down shallow-to-deep; distinct = distinct (convention, axis '
@@ -68,6 +73,20 @@ def call_floor(db: D.DBuilt, names, ns, via: str):
             return E.ocean_floor(db.ds, list(names), non_spatial_variables=list(ns)), None
         except Exception as e:  # noqa
             return None, f'{type(e).__name__}: {e}'
+
+
+def helper_index(column: str) -> str | None:
+    """`_find_ocean_floor_indexes` on one column of v(alid) / n(an); None when the private helper
+    cannot be called as (data_array, depth_dimension) or does not return one integer any more"""
+    import xarray as xr
+    try:
+        from emsarray.operations.depth import _find_ocean_floor_indexes
+        arr = xr.DataArray(np.array([1.0 if ch == 'v' else np.nan for ch in column]), dims=['k'])
+        with warnings.catch_warnings():
+            warnings.simplefilter('ignore')
+            return str(int(_find_ocean_floor_indexes(arr, 'k').values))
+    except Exception:  # noqa
+        return None
 
 
 def visit_order(db: D.DBuilt, names) -> list | None:
@@ -339,6 +358,96 @@ def minimal_recipes():
         yield {'base': base, 'depth': spec}
 
 
+def signed_minimal_recipes():
+    """the same minimal dataset with the vertical grid placed differently against the datum: crossing it,
+    wholly above it (every depth negative), touching it; under both signs and both layer orders; the
+    columns hold 3, 2, 1 and 0 layers counted from the surface, so the deepest valid layer of a column is
+    in turn below, at and above the datum"""
+    for cls, phys in (('cross', [-3, -1, 2]), ('above', [-5, -3, -1]), ('zero-bottom', [-2, -1, 0]), ('zero-top', [0, 1, 2])):
+        for up in (False, True):
+            for deep_first in (False, True):
+                vals = [(-v if up else v) for v in phys]
+                if deep_first:
+                    vals = vals[::-1]
+                base = {'conv': 'cf1d', 'lat': [0, 2], 'lon': [0, 2], 'ydim': 'lat', 'xdim': 'lon', 'latname': 'lat',
+                        'lonname': 'lon', 'bounds': 'none', 'coords_as': 'coords', 'bounds_as': 'vars'}
+                coord = {'name': 'depth', 'values': vals, 'positive': 'up' if up else 'down', 'as': 'coord', 'bounds': None}
+                spec = {'time': None, 'axes': [{'dim': 'depth', 'n': 3, 'coords': [coord]}], 'bounds_last': False,
+                        'vars': [{'name': 'temp', 'kind': 'face', 'axis': 'depth', 'time': False, 'order': None,
+                                  'base': 1000, 'wet': [3, 2, 1, 0]}]}
+                yield (cls, up, deep_first), {'base': base, 'depth': spec}
+
+
+# ---------------------------------------------------------------------------------------
+# every column against every placement of the axis (plain xarray datasets, operations.ocean_floor)
+
+SIGN_CLASSES = ('below', 'zero-top', 'cross', 'above')
+
+
+def signed_axis(cls: str, n: int) -> list:
+    """strictly increasing physical depths (positive down) of n layers"""
+    if cls == 'below':
+        return [1 + 2 * i for i in range(n)]
+    if cls == 'zero-top':
+        return [2 * i for i in range(n)]
+    if cls == 'cross':
+        return [2 * i - n for i in range(n)]        # n odd: no layer at the datum; n even: one
+    return [i - n for i in range(n)]                # 'above': every layer above the datum
+
+
+class Plain:
+    """a dataset that is not bound to a convention, with the same fields the correspondence uses"""
+    conv = 'plain'
+
+    def __init__(self, recipe):
+        import xarray as xr
+        col = recipe['columns']
+        n, up, deep_first = col['n'], col['up'], col['deep_first']
+        phys = signed_axis(col['cls'], n)
+        vals = [(-v if up else v) for v in phys]
+        order = list(range(n))[::-1] if deep_first else list(range(n))      # stored index -> physical rank
+        vals = [vals[r] for r in order]
+        pats = list(itertools.product((True, False), repeat=n))            # by physical rank, shallowest first
+        ncol = len(pats)
+        nt = 2
+        valid = np.array([[pats[c][order[j]] for c in range(ncol)] for j in range(n)])     # (k, x) stored order
+        temp = np.arange(n * ncol, dtype='f8').reshape(n, ncol) + 1000
+        temp[~valid] = np.nan
+        salt = np.arange(nt * ncol * n, dtype='f8').reshape(nt, ncol, n) + 5000
+        salt[np.broadcast_to(~valid.T[None], salt.shape)] = np.nan
+        attrs = {'long_name': 'layer z'}
+        if col['positive']:
+            attrs['positive'] = 'up' if up else 'down'
+        else:
+            attrs['axis'] = 'Z'
+        ds = xr.Dataset(
+            {'temp': (('k', 'x'), temp, {'units': 'u_temp'}), 'salt': (('t', 'x', 'k'), salt, {'units': 'u_salt'}),
+             'eta': (('t', 'x'), np.arange(nt * ncol, dtype='f8').reshape(nt, ncol) + 9000, {'units': 'u_eta'})},
+            coords={'t': (('t',), np.arange(nt, dtype='f8'), {'long_name': 'Time'}),
+                    'z': (('k',), np.array(vals, dtype='f8'), attrs)})
+        coord = {'name': 'z', 'values': vals, 'positive': attrs.get('positive'), 'as': 'coord', 'bounds': None}
+        self.recipe = dict(recipe, depth={'time': {'name': 't', 'dim': 't', 'n': nt}, 'bounds_last': False, 'vars': [],
+                                          'axes': [{'dim': 'k', 'n': n, 'coords': [coord]}]})
+        self.ds = ds
+        self.sizes, self.mvars = D.model_view(ds)
+        self.time_name = 't'
+
+
+def column_recipes(max_n: int):
+    for n in range(1, max_n + 1):
+        for cls in SIGN_CLASSES:
+            for up in (False, True):
+                for deep_first in (False, True):
+                    for positive in (True, False):
+                        yield {'columns': {'n': n, 'cls': cls, 'up': up, 'deep_first': deep_first, 'positive': positive}}
+
+
+def build_any(recipe, stream: str = ''):
+    if 'columns' in recipe:
+        return Plain({'columns': recipe['columns']})
+    return build_extended(recipe) if stream.startswith('extended') else D.build(recipe)
+
+
 def shape_nontrivial(wet, n) -> bool:
     return any(0 < w < n for w in wet)
 
@@ -348,6 +457,11 @@ def run(ctx) -> None:
     items = []
 
     def one(db, names, ns, via, stream, valid, key):
+        # whatever the implementation returns or raises is a verdict about it, never a crash of the run
+        ctx.guarded(lambda: _one(db, names, ns, via, stream, valid, key),
+                    {'recipe': db.recipe, 'names': list(names), 'ns': list(ns), 'via': via, 'stream': stream})
+
+    def _one(db, names, ns, via, stream, valid, key):
         snap_in = snapshot(db.ds)
         out, err = call_floor(db, names, ns, via)
         impl = 'ERR' if out is None else 'OK ' + D.dataset_line(out)
@@ -391,6 +505,10 @@ def run(ctx) -> None:
     for k, recipe in enumerate(minimal_recipes()):
         db = D.build(recipe)
         one(db, D.discovery(db), [], 'function', 'minimal', True, ('minimal', k))
+    # ... and the same dataset with the vertical grid crossing / above / touching the datum
+    for key, recipe in signed_minimal_recipes():
+        db = D.build(recipe)
+        one(db, D.discovery(db), [], 'function-da' if key[2] else 'function', 'minimal-signed', True, ('minimal-signed',) + key)
 
     # (a) all floor shapes of a 2x3 grid with 2 layers
     n_shapes = 0
@@ -447,6 +565,16 @@ def run(ctx) -> None:
             continue
         one(db, names, ns, via, 'extended:' + label, False, ('ext', conv, label, i))
 
+    # (e) every column of valid / missing layers up to length 5 (6) against every placement of the axis
+    # relative to the datum, both signs, both layer orders, with / without the positive attribute
+    for recipe in column_recipes(6 if ctx.thorough else 5):
+        col = recipe['columns']
+        db = Plain(recipe)
+        # a one-level axis is outside the hypotheses (as 'single-level' in the extended stream: the code as
+        # written raises while normalising it, the model mirrors that): model against code only
+        one(db, ['z'], ['t'], 'function-da' if col['n'] % 2 == 0 and col['up'] else 'function',
+            'columns' if col['n'] >= 2 else 'extended:columns-one-level', col['n'] >= 2, ('columns',) + tuple(col.values()))
+
     # (d) the column routine by itself: every column of v/n up to length 6 (propcheck = model-side spec)
     cols = [''.join(c) for n in range(1, 7) for c in itertools.product('vn', repeat=n)]
     if not (ctx.searching and ctx.driver is None):
@@ -456,11 +584,14 @@ def run(ctx) -> None:
             if o != '1':
                 ctx.disagree(f'propcheck {c}', '1', o, {'column': c, 'stream': 'column'})
         # and against xarray's own cumsum / argmax
-        import xarray as xr
-        from emsarray.operations.depth import _find_ocean_floor_indexes
         for c in rng.sample(cols, min(len(cols), 60)):
-            arr = xr.DataArray(np.array([1.0 if ch == 'v' else np.nan for ch in c]), dims=['k'])
-            got = str(int(_find_ocean_floor_indexes(arr, 'k').values))
+            got = helper_index(c)
+            if got is None:
+                # the private helper no longer has the interface (data_array, depth_dimension) -> int array:
+                # that is not a statement about the property (the public entry points are what the other
+                # streams and the column oracle below exercise); counted, not compared
+                ctx.count('column:private-helper-interface-changed')
+                continue
             items.append((f'fidx {c}', got, {'column': c, 'stream': 'column', 'op': f'fidx {c}'}))
 
     if ctx.searching and ctx.driver is None:
@@ -476,16 +607,13 @@ def replay(ctx, data) -> int:
 def run_one(ctx, inp: dict) -> dict:
     out = {}
     if inp.get('stream') == 'column':
-        import xarray as xr
-        from emsarray.operations.depth import _find_ocean_floor_indexes
         c = inp['column']
-        arr = xr.DataArray(np.array([1.0 if ch == 'v' else np.nan for ch in c]), dims=['k'])
-        out['impl'] = str(int(_find_ocean_floor_indexes(arr, 'k').values))
+        out['impl'] = helper_index(c) or 'private helper not callable as (data_array, depth_dimension)'
         if ctx.driver:
             out['model'] = ctx.model([f'fidx {c}'])[0]
         return out
     stream = inp.get('stream', '')
-    db = build_extended(inp['recipe']) if stream.startswith('extended') else D.build(inp['recipe'])
+    db = build_any(inp['recipe'], stream)
     names, ns, via = inp['names'], inp['ns'], inp.get('via', 'function')
     snap_in = snapshot(db.ds)
     res, err = call_floor(db, names, ns, via)
